@@ -448,6 +448,34 @@ package gldap
 //@   tags C16 C19
 //@ loop 1
 //@   invariant forall(j, 0, rangeindex + 1, e.Attributes[j].Name != attribute)
+//@ func (*gldap.Request).GetAddMessage
+//@   requires r != nil
+//@   ensures  typeIs(r.message, *AddMessage) ==> err == nil && result0 == r.message.(*AddMessage)
+//@   ensures  !typeIs(r.message, *AddMessage) ==> err != nil && result0 == nil
+//@   panics false
+//@   modifies nothing
+//@   tags C20
+//@ func (*gldap.Request).GetModifyMessage
+//@   requires r != nil
+//@   ensures  typeIs(r.message, *ModifyMessage) ==> err == nil && result0 == r.message.(*ModifyMessage)
+//@   ensures  !typeIs(r.message, *ModifyMessage) ==> err != nil && result0 == nil
+//@   panics false
+//@   modifies nothing
+//@   tags C20
+//@ func (*gldap.Request).GetDeleteMessage
+//@   requires r != nil
+//@   ensures  typeIs(r.message, *DeleteMessage) ==> err == nil && result0 == r.message.(*DeleteMessage)
+//@   ensures  !typeIs(r.message, *DeleteMessage) ==> err != nil && result0 == nil
+//@   panics false
+//@   modifies nothing
+//@   tags C20
+//@ func (*gldap.Request).GetSearchMessage
+//@   requires r != nil
+//@   ensures  typeIs(r.message, *SearchMessage) ==> err == nil && result0 == r.message.(*SearchMessage)
+//@   ensures  !typeIs(r.message, *SearchMessage) ==> err != nil && result0 == nil
+//@   panics false
+//@   modifies nothing
+//@   tags C20
 //@ func (*gldap.Request).GetSimpleBindMessage
 //@   requires r != nil
 //@   ensures  typeIs(r.message, *SimpleBindMessage) ==> err == nil && result0 == r.message.(*SimpleBindMessage)
@@ -467,8 +495,15 @@ package gldap
 //@   modifies EntryAttribute.Values, EntryAttribute.ByteValues, cell(string), cell([]byte), cell(uint8)@none
 //@ func gldap.NewEntry
 //@   ensures  result != nil && fresh(result) && result.DN == dn
+//@   ensures[C16,C20] forall(j, 0, len(result.Attributes), result.Attributes[j] != nil && fresh(result.Attributes[j]))
 //@   panics false
+//@   modifies nothing
 //@   tags C16
+//@ loop 1
+//@   invariant cap(attributeNames) > 0 ==> fresh(arrOf(attributeNames))
+//@ loop 2
+//@   invariant forall(j, 0, len(encodedAttributes), encodedAttributes[j] != nil && fresh(encodedAttributes[j]))
+//@   invariant cap(encodedAttributes) > 0 ==> fresh(arrOf(encodedAttributes))
 //@ func (*gldap.Request).NewSearchResponseEntry
 //@   requires reqOK(r)
 //@   ensures  result != nil && fresh(result) && result.baseResponse != nil && result.messageID == msgID(r.message) && result.entry.DN == entryDN
